@@ -9,13 +9,15 @@ _state = {}
 
 def get(prog_key="default"):
     """(prog, must-guards of verify) cached per process"""
-    if prog_key not in _state:
+    import os
+    key = (prog_key, os.environ.get("WF_CONFIG_OVERRIDE", ""))   # thorough tier re-runs the packs on other configurations
+    if key not in _state:
         prog = Program(prog_key)
         mg = MustGuards(prog)
         root = prog.fn("winter_verifier::verify")
         gs = mg.of(root)
-        _state[prog_key] = (prog, mg, root, gs)
-    return _state[prog_key]
+        _state[key] = (prog, mg, root, gs)
+    return _state[key]
 
 
 DIGESTING = ("ElementHasher::hash_elements", "Hasher::hash", "Hasher::merge", "TraceOodFrame::hash")
